@@ -243,3 +243,28 @@ def eval_pure_function(fn: ast.FunctionDef, args: dict, data_attrs: tuple = (), 
     except _Return as r:
         return r.v
     return None
+
+
+def eval_local_value(fn: ast.FunctionDef, expr: ast.expr, args: dict, data_attrs: tuple = (), extra: Optional[dict] = None) -> Any:
+    """Value of `expr` (an expression inside `fn`) after the function's plain-name assignments that precede it were executed
+    in order on the given arguments; statements that are not assignments to plain names are skipped (they are effects the
+    caller's rule deals with elsewhere).  Conditional assignments make the value undecidable here (PureEvalError)."""
+    env = dict(extra or {})
+    env.update(args)
+    line = getattr(expr, "lineno", 10 ** 9)
+    for st in fn.body:
+        if st.lineno >= line and any(expr is x for x in ast.walk(st)):
+            break
+        if isinstance(st, ast.Assign) and len(st.targets) == 1 and isinstance(st.targets[0], ast.Name):
+            try:
+                env[st.targets[0].id] = fold_expr(st.value, env, data_attrs=data_attrs)
+            except AnalysisError:
+                env.pop(st.targets[0].id, None)
+        elif isinstance(st, (ast.If, ast.For, ast.While, ast.Try)):
+            for n in ast.walk(st):
+                if isinstance(n, ast.Name) and isinstance(n.ctx, ast.Store):
+                    env.pop(n.id, None)
+    try:
+        return fold_expr(expr, env, data_attrs=data_attrs)
+    except AnalysisError as e:
+        raise PureEvalError(str(e))
